@@ -101,6 +101,23 @@ TransparentCases(tier) ==
         IN One(i, b, u, spx)]
      \o [i \in 1..(Len(B) * 3) |-> Multi(n1 + i, ((i - 1) \div 3) + 1, (i - 1) % 3)]
 
+CrashCases(tier) ==
+  LET S == SetToSeq(C09_Bodies)
+  IN [i \in 1..Len(S) |->
+        LET Sg == SigmaFor(MentionsSeq(S[i]) \cup {"whitespace"})
+        IN [id |-> i, defs |-> <<>>, cmds |-> <<FindAllCmd(S[i])>>, sigma |-> SetToSeq(Sg), lo |-> 0,
+            hi |-> IF tier = "quick" THEN 3 ELSE 4]]
+
+ProcessCrashCases(tier) ==
+  LET E == SetToSeq(C09P_Exprs)
+  IN [i \in 1..Len(E) |-> C09P_Case(i, E[i])] \o <<[FlowProbe EXCEPT !.id = Len(E) + 1]>>
+
+NullableCases(tier) ==
+  LET S == SetToSeq(C10_Bodies)
+  IN [i \in 1..Len(S) |->
+        [id |-> i, defs |-> <<>>, cmds |-> <<FindAllCmd(S[i])>>, sigma |-> <<ba, sp, nl>>, lo |-> 1,
+         hi |-> IF tier = "quick" THEN 3 ELSE 4]]
+
 CasesOf(fam, tier) ==
   CASE fam = "C01"  -> LET A == BodySeqCases(C01_Bodies(tier), tier)
                        IN [i \in 1..Len(A) |-> WithReplace(A[i], 7)] \o GlobalSeqCases(C01_GlobalCases, tier, Len(A))
@@ -109,6 +126,9 @@ CasesOf(fam, tier) ==
     [] fam = "C05"  -> ReplaceCases(tier)
     [] fam = "C06"  -> FileCases(tier)
     [] fam = "C13"  -> TransparentCases(tier)
+    [] fam = "C09"  -> CrashCases(tier)
+    [] fam = "C09P" -> ProcessCrashCases(tier)
+    [] fam = "C10"  -> NullableCases(tier)
     [] fam = "C11"  -> ExprCases(tier)
     [] fam = "C12"  -> TypingCases(tier)
 
